@@ -44,11 +44,13 @@ pub struct Opts {
     /// wrap whole statements / declarations / uses items in conditional directives, and
     /// place compiler directives between declarations and statements
     pub directives: bool,
+    /// simple expressions only: no postfix chains, anonymous routines, generics, nested sets
+    pub simple: bool,
 }
 
 impl Default for Opts {
     fn default() -> Self {
-        Opts { mlstr: false, asm: false, anon: true, generics: true, ascii_only: false, directives: true }
+        Opts { mlstr: false, asm: false, anon: true, generics: true, ascii_only: false, directives: true, simple: false }
     }
 }
 
@@ -225,7 +227,7 @@ impl<'a, 'b> B<'a, 'b> {
     }
 
     fn designator(&mut self, lvl: u32) {
-        if self.opts.generics && lvl < 2 && self.t.chance(1, 24) {
+        if self.opts.generics && !self.opts.simple && lvl < 2 && self.t.chance(1, 24) {
             // TFoo<T>.Create(...)
             self.tag("generic-expr");
             let n = *self.t.pick(&["TList", "TDict", "TFoo"]);
@@ -245,6 +247,24 @@ impl<'a, 'b> B<'a, 'b> {
             return;
         }
         self.id();
+        if self.opts.simple {
+            // at most `.Id` parts and one final call or index
+            let n = self.t.below(3);
+            for _ in 0..n {
+                self.op(".");
+                self.id();
+            }
+            match self.t.below(4) {
+                0 => self.args(lvl + 1),
+                1 => {
+                    self.op("[");
+                    self.add_expr(lvl + 2);
+                    self.op("]");
+                }
+                _ => {}
+            }
+            return;
+        }
         let n = self.t.below(4);
         for _ in 0..n {
             if !self.spend() {
@@ -293,7 +313,7 @@ impl<'a, 'b> B<'a, 'b> {
 
     /// An argument: relational expressions are parenthesised (`Foo(a < b, c > d)` is ambiguous).
     fn arg_expr(&mut self, lvl: u32) {
-        if self.opts.anon && lvl < 2 && self.fuel > 12 && self.t.chance(1, 16) {
+        if self.opts.anon && !self.opts.simple && lvl < 2 && self.fuel > 12 && self.t.chance(1, 16) {
             self.anon_routine();
             return;
         }
@@ -555,7 +575,7 @@ impl<'a, 'b> B<'a, 'b> {
                 // assignment
                 self.designator(0);
                 self.op(":=");
-                if self.opts.anon && self.fuel > 12 && self.t.chance(1, 12) {
+                if self.opts.anon && !self.opts.simple && self.fuel > 12 && self.t.chance(1, 12) {
                     self.anon_routine();
                 } else {
                     self.expr(0);
